@@ -31,6 +31,8 @@ class TModel:
     def spec(self):
         if self.spec_body is not None:
             return self.spec_body
+        if self.spec_extra.endswith("<NONL>"):  # a spec whose last line has no newline
+            return f"echo {self.name} version {self.version}{self.spec_extra[:-6]}"
         return f"echo {self.name} version {self.version}{self.spec_extra}\n"
 
     def spec_sha1(self):
